@@ -1424,7 +1424,7 @@ class C04(Property):
     id = "C04"
     prop_modules = ["CobaVerif.Props.C04"]
     quick_n = 1000
-    thorough_n = 25000
+    thorough_n = 15000
     search_n = 1500
     case_timeout = 60
     workers = 8
